@@ -176,14 +176,15 @@ def test_evalsmt(verbose, n=80):
                 print('SELFTEST evalsmt: z3 error', outs[:2],
                       refreader.render(lines)[:600])
                 return 1
-            # one answer per simplify (answers may span lines: join)
-            joined = ' '.join(outs)
-            if 'false' in joined.split():
+            # one s-expression per simplify; anything but a plain true /
+            # false is a residual z3 could not decide (unspecified cases)
+            answers = refreader.read(z.stdout)
+            if 'false' in answers:
                 print('SELFTEST evalsmt: z3 disagrees:', outs,
                       refreader.render(lines))
                 return 1
-            agree += joined.split().count('true')
-            undecided += len(queries) - joined.split().count('true')
+            agree += answers.count('true')
+            undecided += len(queries) - answers.count('true')
         if verbose:
             print(f'evalsmt vs z3 simplify: {agree} terms agree, '
                   f'{undecided} left undecided by z3')
